@@ -586,6 +586,11 @@ int nat44_egress(struct __sk_buff *skb) {
 	if (ip->version != 4 || ip->ihl < 5)
 		return TC_ACT_OK;
 
+	/* Only the first fragment carries the L4 header: a later fragment has payload
+	 * where the ports would be, there is nothing to look up or rewrite in it */
+	if (ip->frag_off & bpf_htons(0x1FFF))
+		return TC_ACT_OK;
+
 	/* Only NAT private source IPs */
 	if (!is_private_ip(ip->saddr))
 		return TC_ACT_OK;
@@ -827,6 +832,11 @@ int nat44_ingress(struct __sk_buff *skb) {
 
 	/* Malformed IPv4 header (with ihl < 5 the L4 header would overlap the IP header) */
 	if (ip->version != 4 || ip->ihl < 5)
+		return TC_ACT_OK;
+
+	/* Only the first fragment carries the L4 header: a later fragment has payload
+	 * where the ports would be, there is nothing to look up or rewrite in it */
+	if (ip->frag_off & bpf_htons(0x1FFF))
 		return TC_ACT_OK;
 
 	/* Build reverse lookup key */
